@@ -314,16 +314,29 @@ def load_functions_(f):
     return load_functions(f)
 
 
-def run_wrapping_bounds(chk, units, fixture=None):
+def run_wrapping_bounds(chk, units, fixture=None, floor=10):
     """R-NO-WRAPPING-BOUND-TEST: a bounds test does not add two caller-controlled sizes"""
     R = "R-NO-WRAPPING-BOUND-TEST"
-    chk.rule(R, "in the JIT allocator / section copy functions no relational test has an operand `a + b` in which both a and b are size_t / "
-                "uint64_t parameters of the function (directly): such a sum wraps for large arguments and the test then accepts a range that "
-                "lies outside the object (the safe form is `a > n || n - a < b`); a fixture with one wrapping and one safe test is analysed on "
-                "every run to show that the matcher still fires")
+    chk.rule(R, "in the JIT allocator / section copy functions no relational test has an operand `a + b` in which a and b are size_t / "
+                "uint64_t parameters or non-constant locals of the function and neither has an upper bound established (a dominating "
+                "comparison) on every path to the test: such a sum wraps for large values and the test then accepts a range that lies outside "
+                "the object (the safe form is `a > n || n - a < b`); a fixture with one wrapping and one safe test is analysed on every run to "
+                "show that the matcher still fires")
     def scan(fn):
-        pd = {p["did"]: p for p in fn.params if re.search(r"size_t|uint64_t|unsigned long", p["ty"]) and "*" not in p["ty"] and "&" not in p["ty"]}
-        out = []
+        """relational tests with an operand `a + b` where a and b are size-typed parameters or locals and neither has an upper bound
+        established on every path to the test"""
+        from .must import Must
+        SZ = r"size_t|uint64_t|unsigned long"
+        pd = {p["did"] for p in fn.params if re.search(SZ, p["ty"]) and "*" not in p["ty"] and "&" not in p["ty"]}
+        for i, x in fn.ex.items():
+            if x["k"] == "decl":
+                for v in x["vars"]:
+                    if re.search(SZ, v.get("ty") or "") and "*" not in v["ty"] and "&" not in v["ty"]:
+                        iv = fn.e(fn.strip(v["init"])) if v.get("init") is not None else None
+                        if iv is not None and isinstance(iv.get("cv"), int):
+                            continue            # a constant
+                        pd.add(v["did"])
+        cands = []
         for i, x in fn.ex.items():
             if x["k"] == "binop" and x["op"] in ("<", "<=", ">", ">="):
                 for side in (x["lhs"], x["rhs"]):
@@ -331,7 +344,40 @@ def run_wrapping_bounds(chk, units, fixture=None):
                     if y is not None and y["k"] == "binop" and y["op"] == "+":
                         a, b = fn.e(fn.strip(y["lhs"])), fn.e(fn.strip(y["rhs"]))
                         if a is not None and b is not None and a["k"] == "ref" and b["k"] == "ref" and a.get("did") in pd and b.get("did") in pd:
-                            out.append(i)
+                            cands.append((i, a["did"], b["did"]))
+        if not cands:
+            return []
+
+        def edge(b, si, atom, holds):
+            x = fn.e(atom)
+            if not (x and x["k"] == "binop" and x["op"] in ("<", "<=", ">", ">=")):
+                return ()
+            out = []
+            for v_, o_, op in ((x["lhs"], x["rhs"], x["op"]), (x["rhs"], x["lhs"], {"<": ">", "<=": ">=", ">": "<", ">=": "<="}[x["op"]])):
+                vx = fn.e(fn.strip(v_))
+                ox = fn.e(fn.strip(o_))
+                if vx is not None and vx["k"] == "ref" and vx.get("did") in pd and not (ox is not None and ox["k"] == "binop" and ox["op"] == "+"):
+                    upper = (op in ("<", "<=")) == holds
+                    if upper:
+                        out.append(("ub", vx["did"]))
+            return out
+        m = Must(fn, None, edge)
+        par = fn.parent_map()
+        out = []
+        for i, a, b in cands:
+            st = m.before(i)
+            j = i
+            while st is None and j in par:
+                j = par[j]
+                st = m.before(j)
+            if st is None:
+                for blk in fn.blocks.values():
+                    t = blk.get("term")
+                    if t and t.get("cond") is not None and i in set(fn.walk(t["cond"])):
+                        st = m.at_block_end(blk["id"])
+            st = st or frozenset()
+            if ("ub", a) not in st and ("ub", b) not in st:
+                out.append(i)
         return out
     n = 0
     for unit, rex in units:
@@ -347,7 +393,7 @@ def run_wrapping_bounds(chk, units, fixture=None):
             chk.ob(R, "%s/%d" % (short, len(fn.params)), not bad, loc=fn.loc(bad[0]) if bad else "%s:%d" % (unit, fn.line),
                    detail="`%s` compares a sum of two caller-supplied sizes: for arguments close to SIZE_MAX the sum wraps and the range is accepted" %
                           (" ".join(fn.text(bad[0]).split())[:60] if bad else ""), key="wrapbound|%s" % short)
-    chk.floor(R + ":functions", n, 10)
+    chk.floor(R + ":functions", n, floor)
     if fixture:
         ff = core_astfacts(fixture)
         got = {}
